@@ -14,6 +14,9 @@ type shape struct {
 	RegisterKind bool
 	// Transform names how the value legitimately appears in SQL: "" identical, "like-prefix", "like-suffix", "like-infix"
 	Transform string
+	// Anonymous: after parsing, every parameter gets its value stored in the AST and its name removed, which is how the
+	// query builders of package query hand parameters to the translator
+	Anonymous bool
 }
 
 var shapes = []shape{
@@ -101,6 +104,9 @@ var shapes = []shape{
 	{Name: "parameter-value-shortest-path-bound-root", Position: "parameter-value-in-harness-sql", Param: "string", Template: "MATCH (s:NodeKind1 {name: 'a'}) MATCH p = shortestPath((s)-[:EdgeKind1*1..]->(e)) WHERE e.name = $prm RETURN p"},
 	{Name: "parameter-value-shortest-path-bound-ends", Position: "parameter-value-in-harness-sql", Param: "string", Template: "MATCH (s:NodeKind1 {name: 'a'}), (e:NodeKind2 {name: $prm}) MATCH p = shortestPath((s)-[:EdgeKind1*1..]->(e)) RETURN p"},
 	{Name: "parameter-value-all-shortest-paths-bound-root", Position: "parameter-value-in-harness-sql", Param: "string", Template: "MATCH (s:NodeKind1 {name: $prm}) MATCH p = allShortestPaths((s)-[:EdgeKind1*1..]->(e:NodeKind2)) WHERE e.name = 'y' RETURN p"},
+	{Name: "anonymous-parameter-first", Position: "parameter-value", Param: "string-first", Anonymous: true, Template: "MATCH (n) WHERE n.name = $prm AND n.other = $second RETURN n"},
+	{Name: "anonymous-parameter-second", Position: "parameter-value", Param: "string-second", Anonymous: true, Template: "MATCH (n) WHERE n.other = $first AND n.name = $prm RETURN n"},
+	{Name: "anonymous-parameter-shortest-path", Position: "parameter-value-in-harness-sql", Param: "string-second", Anonymous: true, Template: "MATCH p = allShortestPaths((s)-[:EdgeKind1*1..]->(e)) WHERE s.name = $first AND e.name = $prm RETURN p"},
 	{Name: "parameter-list-shortest-path", Position: "parameter-value-in-harness-sql", Param: "list", Template: "MATCH p = allShortestPaths((n)-[*1..]->(m)) WHERE n.name IN $prm RETURN p"},
 }
 
@@ -126,6 +132,10 @@ func (s shape) params(v string) map[string]any {
 	switch s.Param {
 	case "string":
 		return map[string]any{"prm": v}
+	case "string-first":
+		return map[string]any{"prm": v, "second": "other value"}
+	case "string-second":
+		return map[string]any{"first": "other value", "prm": v}
 	case "list":
 		return map[string]any{"prm": []string{v, "y"}}
 	case "map-value":
